@@ -341,6 +341,8 @@ class Interp:
             if a.oid != b.oid:
                 return False
             return _smap().unchanged_except(self, a, b, [])
+        if isinstance(a, _smap().SSet) and isinstance(b, _smap().SSet):
+            return _smap().sset_eq(self, a, b)
         if isinstance(a, _smap().SColl) and isinstance(b, _smap().SColl):
             if a.oid != b.oid:
                 return False
@@ -676,6 +678,8 @@ class Interp:
             return _smap().contains(self, container, item)
         if isinstance(container, _smap().SColl):
             return _smap().coll_contains(self, container, item)
+        if isinstance(container, _smap().SSet):
+            return _smap().sset_contains(self, container, item)
         if isinstance(container, SBytes) or (isinstance(container, (bytes, bytearray)) and isinstance(item, Sym)):
             ct = bytes_term(container)
             if is_byteslike(item):
@@ -848,12 +852,26 @@ class Interp:
             return BoundMethod(("smap", name), obj, f"dict.{name}")
         if isinstance(obj, _smap().SColl):
             return BoundMethod(("scoll", name), obj, f"list.{name}")
+        if isinstance(obj, _smap().SSet):
+            return BoundMethod(("sset", name), obj, f"set.{name}")
+        if type(obj).__name__ == "SuperProxy":
+            from .calls import ExtMethod
+
+            base = ExtClass("super")
+            m = ExtMethod(name, effect=True, is_async=name in getattr(self, "super_async", ()),
+                          raises=[c for c in getattr(self, "super_raises", ())])
+            return BoundMethod(m, SObj(base, {}, tag="super"), f"super.{name}", base)
         if isinstance(obj, SFunc):
             if name == "__name__":
                 return obj.node.name
             raise Unsupported(f"attribute {name} of closure")
         if isinstance(obj, Sym):
             raise Unsupported(f"attribute {name} of {type(obj).__name__}")
+        if type(obj).__name__ == "Model":
+            from .calls import _MODEL_TYPES
+
+            if obj.name in _MODEL_TYPES:
+                return builtins.getattr(_MODEL_TYPES[obj.name], name)
         # concrete receiver
         if isinstance(obj, (list, dict, set, bytearray)) and not self.native:
             return BoundMethod(("native-mutable", name), obj, f"{type(obj).__name__}.{name}")
@@ -1001,6 +1019,11 @@ class Interp:
             return SInt(bv2int(t[i]))
         if isinstance(obj, UnpackableResult):
             return obj.item(self, idx)
+        if isinstance(obj, SObj) and isinstance(obj.cls, ExtClass):
+            m = obj.cls.methods.get("__getitem__")
+            if m is None:
+                raise Unsupported(f"external {obj.cls.__name__} is not subscriptable")
+            return m.apply(self, obj, [idx], {})
         if isinstance(obj, SDict):
             return self.sdict_get(obj, idx, raise_keyerror=True)
         if isinstance(obj, _smap().SMap):
@@ -1937,7 +1960,7 @@ def _kind(v):
 
 
 def _has_sym(v, depth=0):
-    if isinstance(v, (Sym, SObj, SFuture, SDict)) or type(v).__name__ in ("SMap", "SColl", "View"):
+    if isinstance(v, (Sym, SObj, SFuture, SDict)) or type(v).__name__ in ("SMap", "SColl", "View", "SSet"):
         return True
     if depth > 4:
         return False
